@@ -201,3 +201,5 @@ add('C17', 'benign', R, '''    self._buffer.check_can_sample(buffer_state, self.
     buffer_state, samples = jax.pmap''', 'shard count only feeds the error message of check_can_sample')
 add('C16', 'benign', 'brax/envs/inverted_pendulum.py', '    reward, done = jp.zeros(2)', '    reward, done = jp.asarray(0.0), jp.asarray(0.0)', 'done = asarray(0.0): the constant 0 by value')
 add('C16', 'break', 'brax/envs/inverted_pendulum.py', '    reward, done = jp.zeros(2)', '    reward, done = jp.zeros(2)\n    done = done + 1.0', 'episode starts done')
+add('C06', 'benign', 'brax/positional/collisions.py', '    dlambda = -c / (w1 + w2 + 1e-6)', '    inv_w = 1.0 / (w1 + w2 + 1e-6)\n    dlambda = -c * inv_w', 'reciprocal kept in a temporary')
+add('C06', 'break', 'brax/positional/collisions.py', '    dlambda = -c / (w1 + w2 + 1e-6)', '    inv_w = 1.0 / (w1 + w2 + 1e-6)\n    dlambda = c * inv_w', 'contact correction pulls (sign of lambda)')
